@@ -2,11 +2,13 @@ package gossipval
 
 import (
 	"context"
+	"errors"
 	"time"
 
 	"github.com/protolambda/zrnt/eth2/beacon"
 	"github.com/protolambda/zrnt/eth2/beacon/altair"
 	"github.com/protolambda/zrnt/eth2/beacon/common"
+	"github.com/protolambda/zrnt/eth2/beacon/phase0"
 	"github.com/protolambda/zrnt/eth2/zzverif"
 )
 
@@ -159,5 +161,51 @@ func VerifHarness_C12_sync_subnet() {
 		zzverif.Assert(b.marks == 1 && b.markedVal == msg.ValidatorIndex && b.markedSlot == msg.Slot && b.markedSubnet == subnet, "on ACCEPT exactly this (validator, slot, subnet) is marked seen")
 	} else {
 		zzverif.Assert(b.marks == 0, "the seen-cache is marked only on ACCEPT")
+	}
+}
+
+type vExitBackend struct {
+	w       *phase0.VExitWorldT
+	seen    bool
+	headErr bool
+	marks   int
+	marked  common.ValidatorIndex
+}
+
+func (b *vExitBackend) Spec() *common.Spec { return b.w.Spec }
+func (b *vExitBackend) HeadInfo(ctx context.Context) (beacon.ChainEntry, *common.EpochsContext, common.BeaconState, error) {
+	if b.headErr {
+		return nil, nil, nil, errors.New("no head")
+	}
+	return nil, b.w.Epc, b.w.State, nil
+}
+func (b *vExitBackend) SeenExit(index common.ValidatorIndex) bool { return b.seen }
+func (b *vExitBackend) MarkExit(index common.ValidatorIndex)      { b.marks++; b.marked = index }
+
+// VerifHarness_C12_voluntary_exit: the voluntary_exit topic validator: IGNORE for an already seen validator or an
+// unavailable head, ACCEPT exactly when process_voluntary_exit's conditions hold on the head state, REJECT otherwise;
+// the seen-cache is marked only on ACCEPT, with the exiting validator.
+func VerifHarness_C12_voluntary_exit() {
+	w := phase0.VExitWorld()
+	b := &vExitBackend{w: w, seen: zzverif.NondetBool(), headErr: zzverif.NondetBool()}
+	idx := zzverif.NondetU8()
+	zzverif.Assume(idx < 4)
+	ee := zzverif.NondetU8()
+	zzverif.Assume(ee < 8)
+	exit := &phase0.SignedVoluntaryExit{Message: phase0.VoluntaryExit{Epoch: common.Epoch(ee), ValidatorIndex: common.ValidatorIndex(idx)}, Signature: phase0.VSig()}
+	zzverif.Reach("gossip-exit")
+	res := ValidateVoluntaryExit(context.Background(), exit, b)
+	if b.seen || b.headErr {
+		zzverif.Assert(res.Result == IGNORE, "already seen validator / no head available yields IGNORE")
+		zzverif.Assert(b.marks == 0, "the seen-cache is marked only on ACCEPT")
+		return
+	}
+	valid := w.RefExitValid(exit)
+	zzverif.Assert((res.Result == ACCEPT) == valid, "ACCEPT exactly when all process_voluntary_exit conditions hold on the head state")
+	if !valid {
+		zzverif.Assert(res.Result == REJECT, "an invalid exit is REJECTed")
+		zzverif.Assert(b.marks == 0, "the seen-cache is marked only on ACCEPT")
+	} else {
+		zzverif.Assert(b.marks == 1 && b.marked == exit.Message.ValidatorIndex, "on ACCEPT exactly the exiting validator is marked seen")
 	}
 }
